@@ -178,6 +178,18 @@ def make(rng, name, node=False, with_starts=None, with_ignore=None, with_cons=No
         if len(info["ignore"]) == len(elems):
             return make(rng, name, node, with_starts, with_ignore, with_cons, nmax, exact)
     info.update({"class": name, "kwargs": kw})
+    # decoy values: in node mode the EDGES may carry an attribute of the same name (and in edge mode the nodes): the weights live on
+    # the nodes (edges) only, so these values must not influence anything
+    if rng.random() < 0.15:
+        if node:
+            for e in G.edges():
+                if rng.random() < 0.6:
+                    G.edges[e][attr] = cast(rng.choice([0, 1, 7, 50]) * scale)
+        else:
+            for v in G.nodes():
+                if rng.random() < 0.6:
+                    G.nodes[v][attr] = cast(rng.choice([0, 1, 7, 50]) * scale)
+        info["decoy"] = True
     return info
 
 
